@@ -593,22 +593,14 @@ class Discharger:
                 return True, "capacity %s >= 1" % (iv,)
             return False, "channel capacity may be 0"
         if n.startswith("lightning_invoice::Bolt11Invoice::") and n.endswith("payee_pub_key"):
-            recv = recv_root(body, c.args[0])
-            for cnd, truth in lib.dominating_conditions(body, s.bb):
-                if cnd.kind == "call":
-                    cc = cnd.call
-                    # `if invoice.check_signature().is_err() { return }`  (false edge) or is_ok() true edge
-                    if cc.name in ("std::result::Result::is_err", "std::result::Result::is_ok"):
-                        want = (cc.name.endswith("is_ok") and truth) or (cc.name.endswith("is_err") and not truth)
-                        src = strip(self.X.operand(body, cc.args[0]))
-                        for a in alts(src):
-                            if a[0] == "call" and a[1] == "lightning_invoice::Bolt11Invoice::check_signature" and want:
-                                # same invoice
-                                chk = [x for x in body.calls if x.name == "lightning_invoice::Bolt11Invoice::check_signature"]
-                                if any(recv_root(body, x.args[0]) == recv for x in chk):
-                                    return True, "dominated by check_signature() == Ok on the same invoice"
-                if cnd.kind == "enum" and truth == ("Ok",):
-                    pass
+            recv = strip(self.X.operand(body, c.args[0]))
+            # `if invoice.check_signature().is_err() { return }`, `match .. { Ok(..) => }`, `.map_err(..)?` alike
+            for src, truth, _c in lib.variant_facts(body, self.X, s.bb):
+                if truth != ("Ok",):
+                    continue
+                for a in alts(src):
+                    if a[0] == "call" and a[1] == "lightning_invoice::Bolt11Invoice::check_signature" and a[2] and show(a[2][0]) == show(recv):
+                        return True, "dominated by check_signature() == Ok on the same invoice"
             return False, "payee key recovery without a dominating successful check_signature()"
         return False, "partial call %s (%s)" % (n, PARTIAL_CALLS.get(n))
 
